@@ -3,7 +3,7 @@
 (* C19.  Content negotiation of the serving gateways.                      *)
 (*                                                                         *)
 (* A header (Accept / Content-Type) arrives as a sequence of media ranges  *)
-(*      [t, s, opts, q]      kind = t "/" s  ("*" = wildcard component),   *)
+(*      [t, s, opts, q]      kind = t "/" s  ("*" = wildcard),             *)
 (*                           opts = set of <<key, value>> (keys unique),   *)
 (*                           q    = quality in thousandths 1..1000, or NoQ *)
 (*                                  (no q parameter, weighs like q=1).     *)
@@ -13,7 +13,9 @@
 (*   parse    - pref is the permutation sorted by descending quality with  *)
 (*              ties kept in header order (= ParseOrder(hdr), rank based); *)
 (*   match    - Match(p, c): kind of c fits kind of p as a wildcard        *)
-(*              pattern and every option of p is present in c with the     *)
+(*              pattern (Glob over the TEXT of the kind: "*" = any run of  *)
+(*              characters, anywhere in it; everything else literally and  *)
+(*              in full) and every option of p is present in c with the    *)
 (*              same value (c concrete);                                   *)
 (*   encoder  - EncoderSet: the supported encoders matched by the FIRST    *)
 (*              range in preference order that matches any (empty set =    *)
@@ -21,6 +23,9 @@
 (*   decoder  - DecoderSet(c): the supported decoders whose encoding       *)
 (*              matches the declared (concrete, most preferred) content    *)
 (*              type (empty = unsupported-encoding error).                 *)
+(*   request  - ReplySet(ct, ps): a request with content type ct and the   *)
+(*              parsed Accept header ps is answered over ps alone (the     *)
+(*              behaviours over both headers: NegotiationRequest.tla).     *)
 (* Implementation level (as-is model, drift only): Rule = "pattern-outer"  *)
 (* picks the first encoder in table order for that first range, the first  *)
 (* decoder in table order.  Rule = "encoder-outer" (loops swapped) is the  *)
@@ -61,12 +66,19 @@ Decoders == <<JsonEnc("pandas-columns"), JsonEnc("pandas-index"), JsonEnc("panda
 KindsFull == {K("*", "*"), K("application", "*"), K("application", "json"), K("text", "csv"), K("text", "*"),
               K("foo", "bar")}
 KindsSmall == {K("application", "*"), K("application", "json"), K("text", "csv"), K("foo", "bar")}
+\* kinds around the supported ones: longer / shorter by a few characters at either end, wildcards inside a component
+KindsGlob == {K("application", "json"), K("application", "jsonl"), K("application", "x-json"), K("xapplication", "json"),
+              K("application", "js"), K("text", "csv"), K("text", "csv-schema"), K("text", "cs"), K("tex", "csv"), K("*", "*"),
+              K("*", "json"), K("*", "js*"), K("app*", "json"), K("application", "j*n"), K("*", "*sv"), K("t*t", "c*v"),
+              K("*", "*n*")}
 OptsFull == {{}, {Fmt("pandas-records")}, {Fmt("pandas-split")}, {Utf8}, {Fmt("pandas-records"), Utf8},
              {Fmt("pandas-split"), Utf8}}
 OptsMid == {{}, {Fmt("pandas-split")}, {Utf8}}
 OptsSmall == {{}, {Fmt("pandas-split")}}
 QsFull == {NoQ, 100, 500, 1000}
 QsSmall == {NoQ, 500, 1000}
+QsTwo == {NoQ, 500}
+QsOne == {NoQ}
 
 Ranges == {[t |-> k.t, s |-> k.s, opts |-> o, q |-> q] : k \in Kinds, o \in OptSets, q \in Qs}
 
@@ -79,9 +91,46 @@ ParseOrder(h) == [p \in 1..Len(h) |-> CHOOSE i \in 1..Len(h) : Rank(h, i) = p]
 Parsed(h) == [p \in 1..Len(h) |-> Strip(h[ParseOrder(h)[p]])]
 
 (******************************** match ************************************)
-Concrete(c) == c.t # "*" /\ c.s # "*"
-KindFits(p, c) == (p.t = "*" \/ p.t = c.t) /\ (p.s = "*" \/ p.s = c.s)
-Match(p, c) == Concrete(c) /\ KindFits(p, c) /\ p.opts \subseteq c.opts
+\* the kind of an encoding is the text  t "/" s ; the kind of a pattern is a glob over that text: every "*" stands
+\* for any (possibly empty) run of characters, every other character for itself, the WHOLE text has to be covered.
+\* Glob(p, s): a pattern without "*" covers itself only; otherwise what stands before its first "*" starts the text
+\* and the rest of the pattern covers some end of what follows
+KindText(e) == e.t \o "/" \o e.s
+Ch(s, i) == SubSeq(s, i, i)
+StarsAt(s) == {i \in 1..Len(s) : Ch(s, i) = "*"}
+HasStar(s) == StarsAt(s) # {}
+RECURSIVE Glob(_, _)
+Glob(p, s) ==
+    LET n == Len(p)
+        m == Len(s)
+        at == StarsAt(p)
+    IN IF at = {} THEN p = s
+       ELSE LET i == CHOOSE x \in at : \A y \in at : x <= y        \* the first "*": it stands for s[i..j]
+            IN /\ m >= i - 1
+               /\ SubSeq(p, 1, i - 1) = SubSeq(s, 1, i - 1)
+               /\ \E j \in (i - 1)..m : Glob(SubSeq(p, i + 1, n), SubSeq(s, j + 1, m))
+\* the familiar special case: a pattern whose components are either "*" or free of wildcards fits a kind (of
+\* wildcard- and "/"-free components) component by component
+HasSlash(s) == \E i \in 1..Len(s) : Ch(s, i) = "/"
+Plain(x) == x = "*" \/ ~HasStar(x)
+ComponentFits(p, c) == (p.t = "*" \/ p.t = c.t) /\ (p.s = "*" \/ p.s = c.s)
+\* (evaluation only: components known to hold neither a wildcard nor a "/" - checked by GlobLemmas, like the agreement
+\* of the short cuts below with Glob; written out because TLC's coverage accounting copies a computed definition to
+\* every place it is used from)
+SolidComps == {"application", "json", "text", "csv", "foo", "bar", "jsonl", "x-json", "xapplication", "js",
+               "csv-schema", "cs", "tex", "plain", "html", "xml", "image", "octet-stream"}
+KindsElse == {K("text", "plain"), K("text", "html"), K("application", "xml"), K("image", "*"), K("*", "csv")}
+KnownK == {K(k.t, k.s) : k \in Kinds \cup KindsFull \cup KindsGlob \cup KindsElse}
+              \cup {K(Encoders[e].t, Encoders[e].s) : e \in 1..Len(Encoders)}
+              \cup {K(Decoders[d].t, Decoders[d].s) : d \in 1..Len(Decoders)}
+Concrete(c) == (c.t \in SolidComps /\ c.s \in SolidComps) \/ ~HasStar(KindText(c))
+KindFits(p, c) ==
+    IF p.t \in SolidComps /\ p.s \in SolidComps
+    THEN p.t = c.t /\ p.s = c.s      \* no wildcard (and no "/" inside a component): the pattern fits itself only
+    ELSE IF (p.t = "*" \/ p.t \in SolidComps) /\ (p.s = "*" \/ p.s \in SolidComps) /\ c.t \in SolidComps /\ c.s \in SolidComps
+    THEN ComponentFits(p, c)
+    ELSE Glob(KindText(p), KindText(c))
+Match(p, c) == p.opts \subseteq c.opts /\ Concrete(c) /\ KindFits(p, c)
 
 (*************************** encoder / decoder *****************************)
 Min(S) == CHOOSE x \in S : \A y \in S : x <= y
@@ -94,8 +143,15 @@ ImplEncoder(ps) ==
     IF Rule = "encoder-outer"
     THEN LET es == {e \in 1..Len(Encoders) : \E i \in 1..Len(ps) : Match(ps[i], Encoders[e])}
          IN IF es = {} THEN 0 ELSE Min(es)
-    ELSE IF EncoderSet(ps) = {} THEN 0 ELSE Min(EncoderSet(ps))
-ImplDecoder(c) == IF DecoderSet(c) = {} THEN 0 ELSE Min(DecoderSet(c))
+    ELSE LET S == EncoderSet(ps) IN IF S = {} THEN 0 ELSE Min(S)
+ImplDecoder(c) == LET D == DecoderSet(c) IN IF D = {} THEN 0 ELSE Min(D)
+
+(****************************** request glue *******************************)
+\* A request carries the encoding ct of its payload (most preferred range of its Content-Type) and the parsed Accept
+\* header ps (<<>> = no Accept header).  The response is negotiated over the client's own list; only a client that
+\* stated no preference at all is (as-is default, not demanded by the property) answered in the encoding it sent.
+AcceptList(ct, ps) == IF ps = <<>> THEN <<ct>> ELSE ps
+ReplySet(ct, ps) == EncoderSet(AcceptList(ct, ps))
 
 (****************************** behaviours *********************************)
 Init == hdr = <<>> /\ pref = <<>>
@@ -127,12 +183,16 @@ EncoderSound ==
     /\ \A e \in S : \E p \in 1..N : /\ Match(Mine[p], Encoders[e])
                                     /\ \A r \in 1..(p - 1), x \in 1..Len(Encoders) : ~Match(Mine[r], Encoders[x])
                                     /\ \A x \in 1..Len(Encoders) : Match(Mine[p], Encoders[x]) => x \in S
-ImplEncoderRefines == LET S == EncoderSet(Mine) IN IF S = {} THEN ImplEncoder(Mine) = 0 ELSE ImplEncoder(Mine) \in S
+ImplEncoderRefines == LET S == EncoderSet(Mine)
+                          I == ImplEncoder(Mine)
+                      IN IF S = {} THEN I = 0 ELSE I \in S
 DecoderSound ==
     (N > 0 /\ Concrete(Mine[1])) =>
-        /\ \A d \in DecoderSet(Mine[1]) : KindFits(Decoders[d], Mine[1]) /\ Decoders[d].opts \subseteq Mine[1].opts
-        /\ (ImplDecoder(Mine[1]) = 0) <=> (DecoderSet(Mine[1]) = {})
-        /\ ImplDecoder(Mine[1]) # 0 => ImplDecoder(Mine[1]) \in DecoderSet(Mine[1])
+        LET D == DecoderSet(Mine[1])
+            I == ImplDecoder(Mine[1])
+        IN /\ \A d \in D : KindFits(Decoders[d], Mine[1]) /\ Decoders[d].opts \subseteq Mine[1].opts
+           /\ (I = 0) <=> (D = {})
+           /\ I # 0 => I \in D
 
 (**************************** lemmas about Match ***************************)
 Patterns == {Enc(k.t, k.s, o) : k \in Kinds \cup {K("*", "json")}, o \in OptSets}
@@ -144,6 +204,30 @@ MatchLemmas ==
     /\ \A p \in Patterns, c \in Concretes : Match(p, c) => Match(p, Enc(c.t, c.s, c.opts \cup {<<"x-extra", "1">>}))
     /\ \A p \in Patterns, c \in Concretes : (Concrete(p) /\ Match(p, c)) => (p.t = c.t /\ p.s = c.s)
 ASSUME MatchLemmas
+\* lemmas about the wildcard fit of kinds
+Stars(s) == Cardinality(StarsAt(s))
+GlobLemmas(z) ==     \* (a parameter: TLC evaluates parameterless constant definitions in every run)
+    LET PK == {KindText(p) : p \in Patterns}
+        CK == {KindText(c) : c \in Concretes}
+    IN \* without wildcards a kind fits itself only; neither a longer nor a shorter text
+       /\ \A p \in PK, c \in CK : ~HasStar(p) => (Glob(p, c) <=> p = c)
+       /\ \A c \in CK : ~Glob(c, c \o "l") /\ ~Glob(c, "x" \o c) /\ ~Glob(c \o "l", c) /\ ~Glob(c, "")
+       \* whole-component wildcards: component by component
+       /\ \A p \in Patterns, c \in Concretes : (Plain(p.t) /\ Plain(p.s)) => (KindFits(p, c) <=> ComponentFits(p, c))
+       \* the short cuts of KindFits / Concrete give the answers of the definition
+       /\ \A x \in SolidComps : ~HasStar(x) /\ ~HasSlash(x)
+       /\ \A p \in KnownK, c \in KnownK : /\ KindFits(p, c) <=> Glob(KindText(p), KindText(c))
+                                          /\ Concrete(Enc(c.t, c.s, {})) <=> ~HasStar(KindText(c))
+       /\ \A p \in KnownK, c \in KnownK :                                \* also against kinds not named here
+              /\ KindFits(p, K(c.t, c.s \o "l")) <=> Glob(KindText(p), KindText(K(c.t, c.s \o "l")))
+              /\ KindFits(p, K("x/y" \o c.t, c.s)) <=> Glob(KindText(p), KindText(K("x/y" \o c.t, c.s)))
+       \* every character of the pattern other than "*" is used up by a character of its own
+       /\ \A p \in PK, c \in CK : Glob(p, c) => Len(c) >= Len(p) - Stars(p)
+       \* a leading "*" skips a prefix, a trailing "*" a suffix - and nothing else does
+       /\ \A p \in PK, c \in CK : Glob("*" \o p, c) <=> \E j \in 1..(Len(c) + 1) : Glob(p, SubSeq(c, j, Len(c)))
+       /\ \A p \in PK, c \in CK : Glob(p \o "*", c) <=> \E j \in 0..Len(c) : Glob(p, SubSeq(c, 1, j))
+       /\ \A c \in CK : Glob("*", c) /\ Glob("*/*", c) /\ Glob("*" \o c, c) /\ Glob(c \o "*", c)
+ASSUME Kinds = KindsGlob => GlobLemmas(0)   \* in the run over the kinds around the supported ones (richest Patterns)
 
 (********************************* export **********************************)
 MatchTable == {[p |-> p, c |-> c, m |-> Match(p, c)] : p \in Patterns, c \in Concretes}
